@@ -178,7 +178,7 @@ Section OptimizeProofs.
   Proof.
     intros H1 H2 ND. unfold optimize_bucket. cbn zeta in ND.
     destruct (Nat.ltb 1 (length (filter (fun r => negb (shared r)) b))); [|reflexivity].
-    f_equal. apply optimize_order_irrelevant; [|exact ND].
+    f_equal. f_equal. apply optimize_order_irrelevant; [|exact ND].
     rewrite H1. symmetry. apply H2.
   Qed.
 
